@@ -406,21 +406,22 @@ partial def pupTreeOfJson? (j : Json) : Option PupTree.T := do
 def runPup (c : Json) : Option Json := do
   let tree ← (c.getObjVal? "tree").toOption >>= pupTreeOfJson?
   let cellOf (j : Json) : PupTree.Cell := jInt? j
-  let tracked (name : String) : Option (List (Nat × PupTree.Row)) := do
-    let rowsJ ← (c.getObjVal? name).toOption >>= fun a => a.getArr?.toOption
+  -- `tracked[i]`: the rows of protected table i as the privacy-unit definition tracks them: [unit, weight, c0, c1]
+  let trackedJ ← (c.getObjVal? "tracked").toOption >>= fun a => a.getArr?.toOption
+  let tables : List (List (Nat × PupTree.Row)) ← trackedJ.toList.mapM fun tb => do
+    let rowsJ ← tb.getArr?.toOption
     rowsJ.toList.mapM fun r => do
       let u ← (r.getArrVal? 0).toOption >>= jInt?
-      let k ← (r.getArrVal? 1).toOption
-      let x ← (r.getArrVal? 2).toOption
-      pure (u.toNat, ((1 : Int), [cellOf k, cellOf x]))
-  let ta ← tracked "ta"
-  let tb ← tracked "tb"
+      let w ← (r.getArrVal? 1).toOption >>= jInt?
+      let k ← (r.getArrVal? 2).toOption
+      let x ← (r.getArrVal? 3).toOption
+      pure (u.toNat, (w, [cellOf k, cellOf x]))
   let ppJ ← (c.getObjVal? "pp").toOption >>= fun a => a.getArr?.toOption
   let pp ← ppJ.toList.mapM fun r => do
     let k ← (r.getArrVal? 0).toOption
     let w ← (r.getArrVal? 1).toOption
     pure [cellOf k, cellOf w]
-  let env : PupTree.Env := { tracked := fun i => if i == 0 then ta else tb, pub := pp }
+  let env : PupTree.Env := { tracked := fun i => tables.getD i [], pub := pp }
   let showC (x : PupTree.Cell) : String := match x with | some v => toString v | none => "null"
   let rows := (PupTree.eval env tree).map fun r =>
     s!"{r.1}|{r.2.1}|{showC (PupTree.getC r.2.2 0)}|{showC (PupTree.getC r.2.2 1)}"
